@@ -36,6 +36,7 @@ type deferred struct {
 }
 
 type Frame struct {
+	parent    *Frame // the frame this one is executed in place of a call in (nil for the function under verification)
 	id        int
 	fn        *ssa.Function
 	contract  *Contract
@@ -347,6 +348,7 @@ func (x *Exec) newFrame(fn *ssa.Function, parent *Frame, st *State) *Frame {
 	fr.contract = x.contractFor(fn)
 	if parent != nil {
 		fr.depth = parent.depth + 1
+		fr.parent = parent
 	}
 	if fr.depth > 16 {
 		engineErr("inlining depth exceeded at %s", fn)
